@@ -155,7 +155,7 @@ def gen_program(seed, prop):
              "tag": None, "items": []}
         if rng.random() < 0.5:
             s["tag"] = rng.choice(["tag", "", "MPI", "a b", "mute", "mute"])
-        for _ in range(rng.choice([0, 1, 1, 2, 2, 3, 4, 5])):
+        for _ in range(rng.choice([0, 1, 1, 2, 2, 3, 4, 5]) if rng.random() < 0.95 else rng.randint(9, 20)):
             uid += 1
             s["items"].append(gen_item(rng, uid, bias))
         # a named stream object stays open over several statements: now and then another,
